@@ -1,15 +1,15 @@
 CONSTANTS
   H = 4
-  NWit = 2
-  MaxCalls = 1
-  PrimaryPersonas = {"honest", "weak3", "lunatic3", "future3", "flip2", "weak4bad"}
-  WitnessPersonas = {"honest", "weak3", "lunatic3", "future3", "silent"}
+  NWit = 1
+  MaxCalls = 2
+  PrimaryPersonas = {"honest", "malformed3"}
+  WitnessPersonas = {"honest", "lunatic3", "silent"}
   Modes = {"skip"}
   Roots = {1, 2, 3}
   WithUpdate = FALSE
   Nows = {125}
   Weak_SkipTrustLevel = FALSE
-  Weak_AdjacentIgnoresNextVals = TRUE
+  Weak_AdjacentIgnoresNextVals = FALSE
   Weak_NoExpiry = FALSE
   Weak_FutureHeaderOK = FALSE
   Weak_TrustLevelOnNewSet = FALSE
@@ -17,7 +17,7 @@ CONSTANTS
   Weak_NoWitnessNeeded = FALSE
   Weak_BackwardsUnbound = FALSE
   Weak_ReplacementHashUnchecked = FALSE
-  Weak_PromotedWitnessStays = FALSE
+  Weak_PromotedWitnessStays = TRUE
 INIT Init
 NEXT Next
 INVARIANTS TrustRootOnly StoreSound WitnessConfirmed IndependentWitness NoConfirmationFromSilence AttackReported AttackStoresNothing StoreMonotone
